@@ -57,6 +57,17 @@ def packed_embeds_struct(case):
     return False
 
 
+def type_named_like_module(case):
+    """known finding K06: a type whose path is also the path of a module (type `n` in a.pyxis next to a/n.pyxis) is accepted,
+    but the crate then declares `mod n` and `struct n` side by side in one namespace (E0428)"""
+    mods = {tuple(m["path"]) for m in case["input"]["mods"]}
+    for m in case["input"]["mods"]:
+        for d in m["defs"]:
+            if tuple(m["path"] + [d["name"]]) in mods:
+                return True
+    return False
+
+
 def run_c13(tier):
     res = Result("C13", tier)
     cov = {"states": 0, "transitions": 0, "traces_validated_against_impl": 0, "tlc": [], "checker_cmd": ""}
@@ -99,6 +110,8 @@ def run_c13(tier):
                 kf = [k for k in case["oracle"].get("kf", []) if k.startswith("C13:")]
                 if not kf and packed_embeds_struct(case) and all("E0588" in p_ for p_ in problems):
                     kf = ["C13:packed-embeds-struct"]
+                if not kf and type_named_like_module(case) and all("E0428" in p_ for p_ in problems):
+                    kf = ["C13:type-named-like-module"]
                 res.violation("; ".join(problems[:2]), payload(case, obs), kf[0] if kf else None)
             elif acc % 499 == 0:
                 res.sample({"group": name, "modules": [(m["path"], [d["name"] for d in m["defs"]]) for m in case["input"]["mods"]],
